@@ -571,3 +571,133 @@ def _q_observe_cv(f):
     m = f.modules[0]
     nonblank = lambda lst: choice.apply(lambda *x: [str(y) for y in x if str(y).strip()], *lst) if lst else []
     return nonblank(list(m.doc_list)), nonblank(list(m.subroutines[0].doc_list)), nonblank(list(m.variables[0].doc_list))
+
+
+# ---------------------------------------------------------------------------------------
+# O7: every KIND of entity takes its documentation with every configured set of marks, in the following and in the preceding style
+# ---------------------------------------------------------------------------------------
+# (statement, tracer word of the comment that documents it, (path of attribute names / entity names) or None when only counted)
+K_PROGRAM = [
+    ("module kinds_m", "docmod"), ("type shape", "doctype"), ("integer :: side", "doccomp"), ("contains", None),
+    ("procedure :: area", "docbound"), ("generic :: g => area", "docgeneric"), ("final :: wipe", "docfinal"), ("end type shape", None),
+    ("interface gen", "docinterface"), ("module procedure impl", None), ("end interface gen", None),
+    ("abstract interface", None), ("subroutine cb(x)", "doccb"), ("integer :: x", "doccbarg"), ("end subroutine cb", None), ("end interface", None),
+    ("integer :: v", "docvar"), ("namelist /nl/ v", "docnl"), ("contains", None),
+    ("subroutine impl(a)", "docimpl"), ("integer :: a", "docimplarg"), ("end subroutine impl", None),
+    ("function area(self)", "docarea"), ("class(shape) :: self", "docself"), ("real :: area", None), ("end function area", None),
+    ("subroutine wipe(self)", "docwipe"), ("type(shape) :: self", None), ("end subroutine wipe", None),
+    ("end module kinds_m", None),
+]
+K_MARKS = [("!", ">", "*", "|"), (">", "<", "*", "|"), ("#", "$", "@", "%"), ("!", ">", "~", "^")]
+K_STYLES = ["following", "preceding", "following-alt-block", "inline"]
+# where the tracer word must land: entity (found by walking the tree) -> tracer
+K_NAMED = {("FortranModule", "kinds_m"): "docmod", ("FortranType", "shape"): "doctype", ("FortranVariable", "side"): "doccomp",
+           ("FortranBoundProcedure", "area"): "docbound", ("FortranBoundProcedure", "g"): "docgeneric", ("FortranFinalProc", "wipe"): "docfinal",
+           ("FortranVariable", "v"): "docvar", ("FortranSubroutine", "impl"): "docimpl", ("FortranVariable", "a"): "docimplarg",
+           ("FortranFunction", "area"): "docarea", ("FortranSubroutine", "wipe"): "docwipe", ("FortranNamelist", "nl"): "docnl"}
+
+
+def _k_text(marks, style):
+    d, p, a, q = marks
+    out = []
+    for stmt, word in K_PROGRAM:
+        if word is None:
+            out.append(stmt)
+        elif style == "following":
+            out += [stmt, f"  !{d} {word}"]
+        elif style == "preceding":
+            out += [f"  !{p} {word}", stmt]
+        elif style == "following-alt-block":
+            out += [stmt, f"  !{a} {word}", "  ! (end of the block)" if False else "", ]
+        else:
+            out.append(f"{stmt} !{d} {word}")
+    return "\n".join(out) + "\n"
+
+
+def _k_walk(e, out, seen):
+    if any(e is s_ for s_ in seen):
+        return
+    seen.append(e)
+    dl = getattr(e, "doc_list", None)
+    if dl is not None and hasattr(e, "name"):
+        out.append(((type(e).__name__, str(e.name).lower()), [str(x).strip() for x in dl if str(x).strip()]))
+    for l in ("modules", "types", "variables", "boundprocs", "finalprocs", "interfaces", "absinterfaces", "subroutines", "functions", "args",
+              "namelists", "modprocs"):
+        for x in getattr(e, l, None) or []:
+            if hasattr(x, "doc_list"):
+                _k_walk(x, out, seen)
+    for attr in ("procedure", "retvar"):
+        x = getattr(e, attr, None)
+        if x is not None and hasattr(x, "doc_list"):
+            _k_walk(x, out, seen)
+
+
+def _k_observe(marks, style):
+    f = parserh.parse_source_text(_k_text(marks, style), docmark=marks[0], predocmark=marks[1], docmark_alt=marks[2], predocmark_alt=marks[3])
+    out = []
+    _k_walk(f, out, [])
+    return out
+
+
+def _k_bad(obs):
+    bad = []
+    words = [w for _, w in K_PROGRAM if w]
+    where = {w: [k for k, docs in obs if w in " ".join(docs).split()] for w in words}
+    for w, ks in where.items():
+        if len(ks) != 1:
+            bad.append(f"comment '{w}' is attached to {len(ks)} entities: {ks}")
+    docs_of = {k: docs for k, docs in obs}
+    for k, w in K_NAMED.items():
+        if docs_of.get(k) != [w]:
+            bad.append(f"{k[0]} {k[1]}: documentation is {docs_of.get(k)}, its comment says ['{w}']")
+    return bad
+
+
+def replay_kinds(w):
+    try:
+        obs = _k_observe(tuple(w["marks"]), w["style"])
+    except Exception as e:  # noqa
+        return True, {"marks": w["marks"], "style": w["style"], "ford": "raised " + repr(e)[:200]}
+    bad = _k_bad(obs)
+    return bool(bad), {"marks (docmark, predocmark, docmark_alt, predocmark_alt)": w["marks"], "style": w["style"], "wrong": bad[:8],
+                       "source": _k_text(tuple(w["marks"]), w["style"]).splitlines()[:14]}
+
+
+@obligation("C03", "O7.every-entity-kind-with-every-mark-set", engine="SX(CV)", timeout=600)
+def kinds_marks(ctx):
+    """a module holding one entity of every documentable kind (type, component, bindings, generic binding, final procedure, interfaces, abstract
+    interface and its argument, variable, namelist, procedures, arguments), each with its own one-word comment, under a symbolic set of
+    documentation marks and a symbolic comment style: every comment is attached to exactly one entity, the one it stands with"""
+    import ford.sourceform as sf
+    import ford.reader as rd
+
+    ctx.encode_fn(sf.read_docstring)
+    ctx.encode_fn(rd.FortranReader.__next__)
+    ctx.encode_text("read_docstring call sites", "\n".join(l for l in __import__("inspect").getsource(sf).splitlines() if "read_docstring(" in l), "python-source")
+    ctx.bounds.update({"mark sets": K_MARKS, "styles": K_STYLES, "entity kinds": len(K_NAMED)})
+    ctx.stubs.append("the reader needs concrete text: one native run per (mark set, style)")
+
+    def h(E):
+        mi = CV.choice(E, "marks", list(range(len(K_MARKS)))).concretize()
+        st = CV.choice(E, "style", K_STYLES).concretize()
+        snap = {"marks": list(K_MARKS[mi]), "style": st}
+        E.e.snapshot = lambda m: dict(snap)
+        from fv import patch as _p
+        with _p.suspended():
+            bad, detail = replay_kinds(snap)
+        E.reachable("parsed")
+        E.require(not bad, "a documentation comment is not attached to (only) the entity it stands with: " + "; ".join(detail.get("wrong", []))[:160])
+
+    E = sym.Engine(ctx, max_paths=200, incremental=True)
+    found = E.explore(h)
+    seen = set()
+    for (label, m, pc), snap in zip(found, E.snapshots):
+        if not snap or (str(snap["marks"]), snap["style"]) in seen:
+            continue
+        seen.add((str(snap["marks"]), snap["style"]))
+        ctx.report(label, snap, replay_kinds)
+    if E.reached.get("parsed"):
+        ctx.twins += 1
+    else:
+        ctx.inconclusive.append("vacuity: nothing parsed")
+    ctx.sample({"paths": E.paths})
